@@ -1,3 +1,154 @@
 package main
 
-func c16Schemas(thorough bool) (*SPkg, []*Schema) { return nil, nil }
+import (
+	"fmt"
+	"strings"
+)
+
+// C16 — messages stay readable across schema evolution.
+//
+// Base messages A and every A' derived by an edit sequence of length <=2 from {add a field of each kind with a
+// fresh tag (before / after), remove field i, rename field i, reorder declarations, change nothing}. Both
+// versions are generated and compiled; the reflective checker writes with one version and reads with the other.
+
+type c16kind struct {
+	name string
+	mk   func(b *builder, name string, tag int) SField
+}
+
+func c16kinds(b *builder) []c16kind {
+	e, s, _, sub := b.baseDefs()
+	sc := func(k string) c16kind {
+		return c16kind{k, func(b *builder, n string, t int) SField { return SField{Name: n, Tag: t, Kind: k} }}
+	}
+	return []c16kind{sc("int32"), sc("string"), sc("bytes"), sc("bool"), sc("float64"), sc("bin128"), sc("uint64"),
+		{"enum", func(b *builder, n string, t int) SField { return SField{Name: n, Tag: t, Kind: "enum", Ref: e, Via: "base0"} }},
+		{"struct", func(b *builder, n string, t int) SField { return SField{Name: n, Tag: t, Kind: "struct", Ref: s, Via: "base0"} }},
+		{"msg", func(b *builder, n string, t int) SField { return SField{Name: n, Tag: t, Kind: "msg", Ref: sub, Via: "base0"} }},
+		{"[]int64", func(b *builder, n string, t int) SField { return SField{Name: n, Tag: t, Kind: "int64", List: true} }},
+		{"[]string", func(b *builder, n string, t int) SField { return SField{Name: n, Tag: t, Kind: "string", List: true} }},
+		{"[]msg", func(b *builder, n string, t int) SField {
+			return SField{Name: n, Tag: t, Kind: "msg", Ref: sub, Via: "base0", List: true}
+		}},
+		sc("any"),
+	}
+}
+
+type c16edit struct {
+	name  string
+	apply func(fs []SField) []SField
+}
+
+func c16edits(b *builder, kinds []c16kind) []c16edit {
+	var out []c16edit
+	out = append(out, c16edit{"nothing", func(fs []SField) []SField { return fs }})
+	for ki, k := range kinds {
+		k, ki := k, ki
+		out = append(out, c16edit{"add " + k.name + " after", func(fs []SField) []SField {
+			return append(append([]SField{}, fs...), k.mk(b, fmt.Sprintf("added_%d_%d", ki, len(fs)), freshTag(fs, 300+ki)))
+		}})
+		out = append(out, c16edit{"add " + k.name + " before (small tag)", func(fs []SField) []SField {
+			return append([]SField{k.mk(b, fmt.Sprintf("first_%d_%d", ki, len(fs)), freshTag(fs, 1))}, fs...)
+		}})
+	}
+	for i := 0; i < 3; i++ {
+		i := i
+		out = append(out, c16edit{fmt.Sprintf("remove field %d", i), func(fs []SField) []SField {
+			if i >= len(fs) {
+				return fs
+			}
+			return append(append([]SField{}, fs[:i]...), fs[i+1:]...)
+		}})
+		out = append(out, c16edit{fmt.Sprintf("rename field %d", i), func(fs []SField) []SField {
+			if i >= len(fs) {
+				return fs
+			}
+			c := append([]SField{}, fs...)
+			c[i].Name = c[i].Name + "_renamed"
+			return c
+		}})
+	}
+	out = append(out, c16edit{"reverse declarations", func(fs []SField) []SField {
+		c := append([]SField{}, fs...)
+		for i, j := 0, len(c)-1; i < j; i, j = i+1, j-1 {
+			c[i], c[j] = c[j], c[i]
+		}
+		return c
+	}})
+	out = append(out, c16edit{"rotate declarations", func(fs []SField) []SField {
+		if len(fs) < 2 {
+			return fs
+		}
+		return append(append([]SField{}, fs[1:]...), fs[0])
+	}})
+	return out
+}
+
+func freshTag(fs []SField, start int) int {
+	t := start
+	for {
+		used := false
+		for _, f := range fs {
+			if f.Tag == t {
+				used = true
+			}
+		}
+		if !used {
+			return t
+		}
+		t++
+	}
+}
+
+func fieldsKey(fs []SField) string {
+	var p []string
+	for _, f := range fs {
+		p = append(p, fmt.Sprintf("%s:%d:%s", f.Name, f.Tag, f.typeText()))
+	}
+	return strings.Join(p, ";")
+}
+
+func c16Schemas(thorough bool) (*SPkg, []*Schema) {
+	b := &builder{base: basePkg(), n: 7000}
+	kinds := c16kinds(b)
+	edits := c16edits(b, kinds)
+	nb := 6
+	if thorough {
+		nb = len(kinds)
+	}
+	tags := []int{2, 255, 256}
+	for bi := 0; bi < nb; bi++ {
+		// base A: three fields of rotating kinds across the tag 255/256 boundary
+		var fa []SField
+		for j := 0; j < 3; j++ {
+			k := kinds[(bi+j*5)%len(kinds)]
+			fa = append(fa, k.mk(b, fmt.Sprintf("f%d", j), tags[j]))
+		}
+		pa := b.msgPkg(fa)
+		seen := map[string]bool{}
+		addPair := func(name string, fb []SField) {
+			key := fieldsKey(fb)
+			if seen[key] {
+				return
+			}
+			seen[key] = true
+			pb := b.msgPkg(fb)
+			pb.RegExtra = fmt.Sprintf("\tvgen.RegisterPair(%q, %q)\n", pa.Key+".M", pb.Key+".M")
+			sc := b.add(fmt.Sprintf("evolution base#%d [%s]: %s", bi, fieldsKey(fa), name), "ok", b.base, pa, pb)
+			sc.Rule = name
+		}
+		for ei, e1 := range edits {
+			addPair(e1.name, e1.apply(fa))
+			for ej, e2 := range edits {
+				if !thorough && (ei*7+ej+bi)%83 != 0 {
+					continue
+				}
+				if thorough && (ei+ej+bi)%3 != 0 {
+					continue
+				}
+				addPair(e1.name+" + "+e2.name, e2.apply(e1.apply(fa)))
+			}
+		}
+	}
+	return b.base, b.out
+}
